@@ -374,7 +374,16 @@ func runCase(k *hubkit.Kit, c *Case, res *lib.Result) []*hubkit.Peer {
 			}
 		}
 	}
+	prevK, prevT := "", time.Now()
+	slow := func() { // steps that took long are counted: they show where a run's time went
+		if d := time.Since(prevT); prevK != "" && d > 400*time.Millisecond {
+			res.CountN("slow-step-ms:"+c.Kind+":"+prevK, int(d/time.Millisecond))
+		}
+	}
+	defer slow()
 	for _, o := range c.Ops {
+		slow()
+		prevK, prevT = o.K, time.Now()
 		switch o.K {
 		case "join":
 			buf := 0
@@ -734,7 +743,7 @@ func genLagDrop(r *lib.Rng) []Op {
 	if lag2 != 0 {
 		ops = append(ops, Op{K: "stall", N: lag2})
 	}
-	for k, n := 0, r.Range(3500, 5000); k < n; k++ {
+	for k, n := 0, r.Range(3000, 4200); k < n; k++ {
 		send(x, tA, r.Range(1100, 1900), true)
 		if k%400 == 399 {
 			ops = append(ops, Op{K: "barrier", N: x})
@@ -924,10 +933,10 @@ func main() {
 		for i := 0; i < n; i++ {
 			cases = append(cases, Case{Ops: genHistory(rng.Fork()), Kind: "history"})
 		}
-		for i, m := 0, a.Pick(40, 300); i < m; i++ {
+		for i, m := 0, a.Pick(30, 300); i < m; i++ {
 			cases = append(cases, Case{Ops: genLag(rng.Fork()), Kind: "lag"})
 		}
-		for i, m := 0, a.Pick(16, 120); i < m; i++ {
+		for i, m := 0, a.Pick(10, 120); i < m; i++ {
 			cases = append(cases, Case{Ops: genLagDrop(rng.Fork()), Kind: "lagdrop"})
 		}
 		// populations around the powers of two, and one well beyond 64, on one child relay
